@@ -8,11 +8,17 @@ ctor_<crit>    constructor-level clauses on harness-made data: definition (oracl
                exact rational arithmetic), agreement of the subset / integer / binary / real encodings,
                listing-order and rescaling invariance, evalfn = weights x transformations(latent), evaluate()
                row-wise equal to evalfn, nlatent = len(latent)
-fact_<group>   factory clauses: problems built from a population hold that population's data in its taxon order
+fact_<group>   factory clauses: problems built from a population hold that population's data in its taxon order; every
+               factory of every class is called with three distinct recording transformations (own kwargs each) and weights,
+               and evalfn of the factory-made problem = declared weights x declared transformations(latent, **declared kwargs)
+fact_hap_large / fact_uc_large
+               the same factory clauses on sizes across the library's memory-chunk boundary (the factories hard-wire
+               chunks of 1024 cross configurations / 1024 markers of a linkage group): populations made from a drawn seed
 """
 import inspect
 import importlib
 import math
+import os
 import pkgutil
 from fractions import Fraction as Fr
 
@@ -44,6 +50,8 @@ ASSUMPTIONS = [
     "generalised weighted criterion, which the WeightedGenomicSelection protocol itself uses with alpha = 1/2)",
     "UC factory: inbred parents, nself = 0, Haldane map function (the two-way DH variance formula's own domain)",
     "haplotype-block factories: layouts with a marker on an interior bin edge or with an empty bin are kept out (C18's subject)",
+    "transformations handed to factories accept **kwargs (like every transformation shipped in trans.py) and are pure functions",
+    "fact_hap_large / fact_uc_large: fixed size lists; the seeds of their populations are derived from VERIF_SEED and stored in the case",
 ]
 
 # ----------------------------------------------------------------------------------------------------------------
@@ -223,6 +231,93 @@ def _transforms(draw, nlatent):
             "elementwise": draw(st.booleans())}
 
 
+# transformations for the factory-level clause: three DIFFERENT recording closures, each with its OWN kwargs (the value of a
+# closure depends on its "shift" keyword), library transformations that read kwargs, and weights that differ between the roles.
+# Matrices / weight vectors are drawn for NLAT_MAX latent variables and cut (cyclically) to the problem's nlatent inside fn.
+NLAT_MAX = 6
+
+
+@st.composite
+def _fact_transforms(draw):
+    def kw(role):
+        k = draw(st.sampled_from(["own", "own", "own", "empty", "none"]))
+        if k == "own":
+            return {"who": role, "shift": draw(st.sampled_from([0.5, -1.0, 2.0, 3.0, -4.5, 6.0, 10.0]))}
+        return {} if k == "empty" else None
+
+    def affine(role, nout):
+        return {"kind": "affine", "n": nout,
+                "A": [[draw(st.integers(-3, 3)) for _ in range(NLAT_MAX)] for _ in range(nout)],
+                "b": [draw(st.sampled_from([0.0, 1.0, -2.5, 10.0])) for _ in range(nout)],
+                "d": draw(st.sampled_from([0.0, 0.0, 1.0, -0.5])), "kw": kw(role)}
+    okind = draw(st.sampled_from(["default", "dot", "affine", "affine", "affine"]))
+    if okind == "default":
+        obj = {"kind": "default", "n": None}            # n = nlatent, filled in by fact_tr
+    elif okind == "dot":
+        obj = {"kind": "dot", "n": 1, "w": [draw(_num()) for _ in range(NLAT_MAX)]}
+    else:
+        obj = affine("obj", draw(st.integers(1, 3)))
+    ikind = draw(st.sampled_from(["none", "affine", "affine", "affine"]))
+    ineq = affine("ineq", draw(st.integers(1, 2))) if ikind == "affine" else {"kind": "none", "n": 0}
+    ekind = draw(st.sampled_from(["none", "affine", "affine", "affine", "sumeq"]))
+    if ekind == "affine":
+        eq = affine("eq", draw(st.integers(1, 2)))
+    elif ekind == "sumeq":
+        eq = {"kind": "sumeq", "n": 1, "target": draw(st.sampled_from([1.0, 0.0, 3.0, 6.0]))}
+    else:
+        eq = {"kind": "none", "n": 0}
+
+    def wt(nmax):
+        k = draw(st.sampled_from(["none", "scalar", "array", "array", "array"]))
+        if k == "none":
+            return None
+        if k == "scalar":
+            return draw(st.sampled_from([-1.0, 2.0, -0.5, 1.0, 4.0]))
+        return [draw(st.sampled_from([1.0, -1.0, 2.0, -3.0, 0.5, 1.5, 4.0])) for _ in range(nmax)]
+    return {"obj": obj, "ineq": ineq, "eq": eq, "obj_wt": wt(NLAT_MAX), "ineq_wt": wt(2), "eq_wt": wt(2)}
+
+
+def fact_tr(ftr, nlat, legacy_wt=None):
+    """the drawn factory transformation spec cut to a problem with `nlat` latent variables (same layout as `_transforms`).
+    Replays recorded before this clause existed have no spec: they get default transformations and the weights used then."""
+    if ftr is None:
+        return {"obj": {"kind": "default", "n": nlat}, "ineq": {"kind": "none", "n": 0}, "eq": {"kind": "none", "n": 0},
+                "obj_wt": None if legacy_wt is None else [float(v) for v in legacy_wt], "ineq_wt": None, "eq_wt": None,
+                "elementwise": True}
+    out = {"elementwise": True}
+    for role in ("obj", "ineq", "eq"):
+        spec = dict(ftr[role])
+        if spec["kind"] == "default":
+            spec["n"] = nlat
+        elif spec["kind"] == "dot":
+            spec["w"] = [spec["w"][j % NLAT_MAX] for j in range(nlat)]
+        elif spec["kind"] == "affine":
+            spec["A"] = [[row[j % NLAT_MAX] for j in range(nlat)] for row in spec["A"]]
+        out[role] = spec
+        w = ftr[role + "_wt"]
+        out[role + "_wt"] = [w[j % len(w)] for j in range(spec["n"])] if isinstance(w, list) else w
+    return out
+
+
+def fact_labels(ctx, tr):
+    ctx.label("fact_obj:" + tr["obj"]["kind"])
+    ctx.label("fact_ineqcv:" + tr["ineq"]["kind"])
+    ctx.label("fact_eqcv:" + tr["eq"]["kind"])
+    kws = [tr[r].get("kw") or {} for r in ("ineq", "eq") if tr[r]["kind"] == "affine"]
+    ctx.label("fact_distinct_constraint_kwargs", len(kws) == 2 and kws[0] != kws[1])
+    ctx.label("fact_eq_reads_kwargs", tr["eq"]["kind"] == "sumeq" or bool(tr["eq"].get("kw")))
+
+
+def factory_eval(ctx, crit, enc, fname, prob, rec, tr, x):
+    """a problem built by factory `fname` with the declared weights / transformations / kwargs reports exactly
+    weights x transformations(latent, **kwargs): the factory forwards every one of the twelve arguments to the right place"""
+    w = tr["obj_wt"]
+    if isinstance(w, list):
+        ctx.check(numpy.array_equal(prob.obj_wt, _np(w)), crit + ".factory.forwards_weights",
+                  lambda: "%s %s %s: obj_wt=%s, given %s" % (crit, enc, fname, prob.obj_wt, w))
+    check_eval(ctx, crit, enc, prob, rec, tr, [("factory", x)], pre=crit + ".factory.", what=fname + " of ")
+
+
 # ----------------------------------------------------------------------------------------------------------------
 # criterion handlers: data strategy, constructor kwargs, oracle
 # ----------------------------------------------------------------------------------------------------------------
@@ -388,7 +483,7 @@ def make_trans(spec, rec, role):
 
     def fn(decnvec, latentvec, **kwargs):
         rec.calls.append((role, numpy.array(decnvec, copy=True), numpy.array(latentvec, copy=True), dict(kwargs)))
-        return affine_value(A, b, d, decnvec, latentvec)
+        return affine_value(A, b, d, decnvec, latentvec) + float(kwargs.get("shift", 0.0))
     return fn, spec["kw"]
 
 
@@ -444,7 +539,7 @@ def expected_part(spec, wt, x, lat):
         a = math.fsum(abs(float(v)) for v in x) + abs(spec["target"])
         return [w[0] * abs(s - spec["target"])], [abs(w[0]) * 4 * (len(x) + 2) * EPS * a + 1e-300]
     A, b, d = _np(spec["A"]).reshape(n, -1), _np(spec["b"]), float(spec["d"])
-    r = affine_value(A, b, d, x, lat)
+    r = affine_value(A, b, d, x, lat) + float((spec.get("kw") or {}).get("shift", 0.0))
     return [w[i] * float(r[i]) for i in range(n)], None
 
 
@@ -461,6 +556,15 @@ def _close_vec(a, ref, tol):
         elif not abs(x - ref[i]) <= tol[i]:
             return False
     return True
+
+
+def _brief(x):
+    """decision vector for a message: in full when short, as (index, value) pairs of its non-zero entries when long"""
+    x = numpy.asarray(x)
+    if x.size <= 40:
+        return x.tolist()
+    nz = numpy.flatnonzero(x)
+    return "len %d, non-zero %s" % (x.size, [(int(i), x[i].item()) for i in nz[:40]])
 
 
 def _perm(seed, k):
@@ -588,34 +692,35 @@ def check_ctor(case, ctx):
         ctx.label("real_free_vector")
 
 
-def check_eval(ctx, crit, enc, prob, rec, tr, vecs):
-    """evalfn = weights x transformations(latent); evaluate() row-wise equals evalfn"""
+def check_eval(ctx, crit, enc, prob, rec, tr, vecs, pre="", what=""):
+    """evalfn = weights x transformations(latent); evaluate() row-wise equals evalfn.
+    `pre` prefixes the clause names (constructor level: none; factory level: "<crit>.factory.")"""
     rows = []
     for tag, x in vecs:
         lat = prob.latentfn(x)
         del rec.calls[:]
         out = prob.evalfn(x)
-        ctx.check(isinstance(out, tuple) and len(out) == 3, "evalfn.returns_triple")
+        ctx.check(isinstance(out, tuple) and len(out) == 3, pre + "evalfn.returns_triple")
         calls = list(rec.calls)
         for role, cx, clat, ckw in calls:
             spec = tr[role]
-            ctx.check(numpy.array_equal(cx, x), "evalfn.transformation_receives_x",
+            ctx.check(numpy.array_equal(cx, x), pre + "evalfn.transformation_receives_x",
                       lambda: "%s transformation got x=%s instead of %s" % (role, cx.tolist(), x.tolist()))
-            ctx.check(clat.shape == lat.shape and numpy.array_equal(clat, lat, equal_nan=True), "evalfn.transformation_receives_latent",
+            ctx.check(clat.shape == lat.shape and numpy.array_equal(clat, lat, equal_nan=True), pre + "evalfn.transformation_receives_latent",
                       lambda: "%s transformation got %s, latentfn(x)=%s" % (role, clat.tolist(), lat.tolist()))
-            ctx.check(ckw == (spec.get("kw") or {}), "evalfn.transformation_kwargs",
-                      lambda: "%s transformation got kwargs %r, declared %r" % (role, ckw, spec.get("kw")))
+            ctx.check(ckw == (spec.get("kw") or {}), pre + "evalfn.transformation_kwargs",
+                      lambda: "%s%s %s: %s transformation got kwargs %r, declared %r" % (what, crit, enc, role, ckw, spec.get("kw")))
         n_aff = sum(1 for r in ("obj", "ineq", "eq") if tr[r]["kind"] == "affine")
         # informational: calling a declared transformation more than once (e.g. for caching) would not break the property
         ctx.label("info:transformation_called_other_than_once", len(calls) != n_aff)
         for j, (role, wkey) in enumerate((("obj", "obj_wt"), ("ineq", "ineq_wt"), ("eq", "eq_wt"))):
             exp, etol = expected_part(tr[role], tr[wkey], x, lat)
             got = numpy.asarray(out[j])
-            ctx.check(got.ndim == 1 and len(got) == tr[role]["n"], "evalfn.%s.length" % role,
+            ctx.check(got.ndim == 1 and len(got) == tr[role]["n"], pre + "evalfn.%s.length" % role,
                       lambda: "%s has shape %s, declared %d" % (role, got.shape, tr[role]["n"]))
-            ctx.check(_close_vec(got, exp, etol), "evalfn.%s.value" % role,
-                      lambda: "%s %s/%s x=%s: %s part is %s, weights x transformation(latent) = %s (latent %s, weights %r, spec %r)"
-                      % (crit, enc, tag, x.tolist(), role, got.tolist(), exp, lat.tolist(), tr[wkey], tr[role]))
+            ctx.check(_close_vec(got, exp, etol), pre + "evalfn.%s.value" % role,
+                      lambda: "%s%s %s/%s x=%s: %s part is %s, weights x transformation(latent) = %s (latent %s, weights %r, spec %r)"
+                      % (what, crit, enc, tag, _brief(x), role, got.tolist(), exp, lat.tolist(), tr[wkey], tr[role]))
         rows.append(out)
     # pymoo entry point
     X = numpy.stack([x for _t, x in vecs] + [vecs[0][1]])
@@ -623,14 +728,14 @@ def check_eval(ctx, crit, enc, prob, rec, tr, vecs):
     for key, j, role in (("F", 0, "obj"), ("G", 1, "ineq"), ("H", 2, "eq")):
         n = tr[role]["n"]
         if n == 0:
-            ctx.check(res.get(key) is None or numpy.size(res.get(key)) == 0, "evaluate.empty_part_reported", "%s=%r" % (key, res.get(key)))
+            ctx.check(res.get(key) is None or numpy.size(res.get(key)) == 0, pre + "evaluate.empty_part_reported", "%s=%r" % (key, res.get(key)))
             continue
         M = res.get(key)
         ok = M is not None and numpy.asarray(M).shape == (len(X), n)
-        ctx.check(ok, "evaluate.shape", lambda: "%s has shape %r, expected (%d,%d)" % (key, None if M is None else numpy.asarray(M).shape, len(X), n))
+        ctx.check(ok, pre + "evaluate.shape", lambda: "%s has shape %r, expected (%d,%d)" % (key, None if M is None else numpy.asarray(M).shape, len(X), n))
         for i in range(len(X)):
             src = rows[i] if i < len(rows) else rows[0]
-            ctx.check(numpy.array_equal(numpy.asarray(M)[i], numpy.asarray(src[j]), equal_nan=True), "evaluate.row_equals_evalfn",
+            ctx.check(numpy.array_equal(numpy.asarray(M)[i], numpy.asarray(src[j]), equal_nan=True), pre + "evaluate.row_equals_evalfn",
                       lambda: "row %d of %s: %s, evalfn gives %s" % (i, key, numpy.asarray(M)[i].tolist(), numpy.asarray(src[j]).tolist()))
 
 
@@ -803,11 +908,6 @@ def factory_latent(ctx, crit, enc, prob, data_eq, c, members, x, extra_tol=None,
     return lat
 
 
-def passthrough(ctx, crit, prob, obj_wt):
-    ctx.check(numpy.array_equal(prob.obj_wt, obj_wt), crit + ".factory.forwards_weights",
-              lambda: "obj_wt=%s, given %s" % (prob.obj_wt, obj_wt))
-
-
 def two_orders(pop):
     n = pop["n"]
     o2 = _perm(pop["perm"], n)
@@ -823,7 +923,8 @@ def bvmat_case(draw):
     n, t = pop["n"], pop["t"]
     return {"pop": pop, "mat": _table(draw, n, t), "loc": [draw(_num()) for _ in range(t)],
             "scale": [draw(_pos()) for _ in range(t)], "unscale": draw(st.booleans()),
-            "dec": draw(_decision(n)), "obj_wt": [draw(st.sampled_from([1.0, -1.0, 2.5])) for _ in range(8)]}
+            "dec": draw(_decision(n)), "obj_wt": [draw(st.sampled_from([1.0, -1.0, 2.5])) for _ in range(8)],
+            "ftr": draw(_fact_transforms())}
 
 
 def check_fact_bvmat(case, ctx):
@@ -849,8 +950,9 @@ def check_fact_bvmat(case, ctx):
                 if enc not in xs:
                     continue
                 nlat = t + (len(set(pop["grp"])) if crit == "Family" else 0)
-                wt = _np(case["obj_wt"][:nlat] + [1.0] * max(0, nlat - 8))
-                kw = dict(space_kwargs(enc, n, len(members)), nobj=nlat, obj_wt=wt)
+                tr = fact_tr(case.get("ftr"), nlat, case["obj_wt"][:nlat] + [1.0] * max(0, nlat - 8))
+                rec = Recorder()
+                kw = dict(space_kwargs(enc, n, len(members)), **common_kwargs(tr, rec))
                 if crit == "Family":
                     prob = cls.from_bvmat(bvmat=bv, **kw)
                     exp, etol = [[Fr(v) for v in row] for row in mat], None      # documented: the matrix' stored values
@@ -866,11 +968,12 @@ def check_fact_bvmat(case, ctx):
                 ctx.check(_arr_close(attr, exp, etol), crit + ".factory.from_bvmat.data",
                           lambda: "%s %s order: problem holds %s, population (taxon order %s) has %s" % (
                               enc, oname, numpy.asarray(attr).tolist(), pop["names"], [[float(v) for v in r] for r in exp]))
-                passthrough(ctx, crit, prob, wt)
+                factory_eval(ctx, crit, enc, "from_bvmat", prob, rec, tr, xs[enc])
                 xt = None
                 if etol is not None:
                     xt = [sum(float(c[i]) * etol[i][j] for i in range(n)) for j in range(t)] + [0.0] * (nlat - t)
                 factory_latent(ctx, crit, enc, prob, data_eq, c, members, xs[enc], xt)
+    fact_labels(ctx, fact_tr(case.get("ftr"), t))
     ctx.nontrivial(len(set(map(tuple, case["mat"]))) > 1)
 
 
@@ -885,7 +988,8 @@ def genomic_case(draw):
             "fafreq": [[draw(st.sampled_from([1.0, 0.5, 0.25, 0.1, 0.75] + ([0.0] if zero else []))) for _ in range(t)] for _ in range(p)],
             "tfreq_kind": draw(st.sampled_from(["sign", "half", "array"])),
             "tfreq": [[draw(st.sampled_from([0.0, 1.0, 0.5, 0.25])) for _ in range(t)] for _ in range(p)],
-            "dec": draw(_decision(n)), "obj_wt": [draw(st.sampled_from([1.0, -1.0, 2.5])) for _ in range(4)]}
+            "dec": draw(_decision(n)), "obj_wt": [draw(st.sampled_from([1.0, -1.0, 2.5])) for _ in range(4)],
+            "ftr": draw(_fact_transforms())}
 
 
 def wgs_nan_signature(fafreq):
@@ -904,7 +1008,7 @@ def check_fact_genomic(case, ctx):
         mod = make_model(pop)
         geno = dosage(pop)
         u = pop["u"]
-        wt = _np(case["obj_wt"][:t])
+        tr = fact_tr(case.get("ftr"), t, case["obj_wt"][:t])
         # ---------- GEBV.from_gmat_gpmod -------------------------------------------------------------------
         gtab = D.gebv_table(geno, u, pop["beta"])
         mag = [max(abs(float(gtab[i][j])) for i in range(n)) + abs(pop["beta"][j]) + sum(2 * abs(u[k][j]) for k in range(p)) for j in range(t)]
@@ -931,11 +1035,12 @@ def check_fact_genomic(case, ctx):
             c, members, xs = dec_vectors(case["dec"], n, [enc])
             if enc not in xs or not usable:
                 continue
-            prob = cls.from_gmat_gpmod(gmat=gmat, gpmod=mod, unscale=case["unscale"], nobj=t, obj_wt=wt, **space_kwargs(enc, n, len(members)))
+            rec = Recorder()
+            prob = cls.from_gmat_gpmod(gmat=gmat, gpmod=mod, unscale=case["unscale"], **common_kwargs(tr, rec), **space_kwargs(enc, n, len(members)))
             ctx.check(_arr_close(prob.gebv, exp, etol), "GEBV.factory.from_gmat_gpmod.data",
                       lambda: "%s %s order unscale=%s: problem holds %s, intercept + Z u of the population = %s" % (
                           enc, oname, case["unscale"], prob.gebv.tolist(), [[float(v) for v in r] for r in exp]))
-            passthrough(ctx, "GEBV", prob, wt)
+            factory_eval(ctx, "GEBV", enc, "from_gmat_gpmod", prob, rec, tr, xs[enc])
             xt = [sum(float(c[i]) * etol[i][j] for i in range(n)) for j in range(t)]
             factory_latent(ctx, "GEBV", enc, prob, {"v": [[float(v) for v in r] for r in exp]}, c, members, xs[enc], xt)
 
@@ -955,20 +1060,21 @@ def check_fact_genomic(case, ctx):
                         continue
                     if is_wgs and src == "from_gmat_algpmod" and ctx.known("F-C05-g", case["phased"]):
                         continue
+                    rec = Recorder()
                     if src == "from_numpy":
                         args = dict(Z_a=_np(geno, "int8" if order[0] % 2 else float), u_a=_np(u), fafreq=_np([[float(f) for f in r] for r in ff]))
                         if not is_wgs:
                             args["alpha"] = alpha
-                        prob = cls.from_numpy(nobj=t, obj_wt=wt, **args, **sp)
+                        prob = cls.from_numpy(**common_kwargs(tr, rec), **args, **sp)
                     else:
                         args = dict(gmat=gmat, algpmod=mod)
                         if not is_wgs:
                             args["alpha"] = alpha
-                        prob = cls.from_gmat_algpmod(nobj=t, obj_wt=wt, **args, **sp)
+                        prob = cls.from_gmat_algpmod(**common_kwargs(tr, rec), **args, **sp)
                     ctx.check(_arr_close(prob.gwgebv, tab, ttol), "%s.factory.%s.data" % (crit, src),
                               lambda: "%s %s order alpha=%s fafreq=%s u=%s: problem holds %s, sum_j z_ij u_j f_j^-alpha = %s" % (
                                   enc, oname, alpha, [[float(f) for f in r] for r in ff], u, prob.gwgebv.tolist(), tab))
-                    passthrough(ctx, crit, prob, wt)
+                    factory_eval(ctx, crit, enc, src, prob, rec, tr, xs[enc])
                     xt = [sum(float(c[i]) * ttol[i][j] for i in range(n)) for j in range(t)]
                     factory_latent(ctx, crit, enc, prob, {"v": tab}, c, members, xs[enc], xt)
         ctx.label("zero_effect_marker", any(v == 0.0 for row in u for v in row))
@@ -999,8 +1105,9 @@ def check_fact_genomic(case, ctx):
                 continue
             del seen[:]
             nlat = 2 * t if crit == "MOGS" else t
-            w2 = _np((case["obj_wt"] * 2)[:nlat])
-            prob = cls.from_gmat_gpmod(gmat=gmat, weight=weight_fn, target=target, gpmod=mod, nobj=nlat, obj_wt=w2,
+            tr2 = fact_tr(case.get("ftr"), nlat, (case["obj_wt"] * 2)[:nlat])
+            rec = Recorder()
+            prob = cls.from_gmat_gpmod(gmat=gmat, weight=weight_fn, target=target, gpmod=mod, **common_kwargs(tr2, rec),
                                        **space_kwargs("subset", n, len(members)))
             ctx.check(all(numpy.array_equal(a, _np(u)) for _k, a in seen) and len(seen) == (2 if callable(target) else 1),
                       crit + ".factory.callables_receive_marker_effects", lambda: "calls: %r" % (seen,))
@@ -1009,10 +1116,11 @@ def check_fact_genomic(case, ctx):
             ctx.check(ok, crit + ".factory.from_gmat_gpmod.data",
                       lambda: "%s order: geno %s (population dosages %s), ploidy %r, mkrwt %s (|u| = %s), tfreq %s (expected %s)" % (
                           oname, numpy.asarray(prob.geno).tolist(), geno, prob.ploidy, prob.mkrwt.tolist(), mk, prob.tfreq.tolist(), tf))
-            passthrough(ctx, crit, prob, w2)
+            factory_eval(ctx, crit, "subset", "from_gmat_gpmod", prob, rec, tr2, xs["subset"])
             data_eq = {"geno": geno, "ploidy": 2, "mkrwt": mk, "tfreq": tf}
             factory_latent(ctx, crit, "subset", prob, data_eq, c, members, xs["subset"],
                            guard=lambda: crit == "PAU" and ctx.known("F-C05-b", pau_signature(data_eq, members)))
+    fact_labels(ctx, fact_tr(case.get("ftr"), t))
     ctx.nontrivial(len(set(map(tuple, dosage(pop0)))) > 1)
 
 
@@ -1037,7 +1145,7 @@ def l1_case(draw):
     return {"n": n, "mkrwt": [[draw(_num()) for _ in range(t)] for _ in range(p)],
             "tafreq": [[draw(fr) for _ in range(p)] for _ in range(n)],
             "tfreq": [[draw(st.one_of(fr, st.floats(0, 1, allow_nan=False))) for _ in range(t)] for _ in range(p)],
-            "dec": draw(_decision(n)), "perm": draw(st.integers(0, 10 ** 6))}
+            "dec": draw(_decision(n)), "perm": draw(st.integers(0, 10 ** 6)), "ftr": draw(_fact_transforms())}
 
 
 def check_fact_l1(case, ctx):
@@ -1053,12 +1161,16 @@ def check_fact_l1(case, ctx):
             c, members, xs = dec_vectors(case["dec"], n, [enc])
             if enc not in xs:
                 continue
-            prob = cls.from_numpy(mkrwt=_np(case["mkrwt"]), tafreq=_np(taf), tfreq=_np(case["tfreq"]), nobj=t, **space_kwargs(enc, n, len(members)))
+            tr, rec = fact_tr(case.get("ftr"), t), Recorder()
+            prob = cls.from_numpy(mkrwt=_np(case["mkrwt"]), tafreq=_np(taf), tfreq=_np(case["tfreq"]), **common_kwargs(tr, rec),
+                                  **space_kwargs(enc, n, len(members)))
+            factory_eval(ctx, "L1", enc, "from_numpy", prob, rec, tr, xs[enc])
             got = numpy.asarray(prob.V)
             ok = got.shape == (t, p, n) and bool(numpy.all(numpy.abs(got - numpy.array(Vf)) <= numpy.array(Vtol)))
             ctx.check(ok, "L1.factory.from_numpy.data", lambda: "%s: V=%s, w_jt (f_ij - tf_jt) = %s" % (enc, got.tolist(), Vf))
             xt = [sum(sum(float(c[i]) * Vtol[k][j][i] for i in range(n)) for j in range(p)) for k in range(t)]
             factory_latent(ctx, "L1", enc, prob, {"V": Vf}, c, members, xs[enc], xt)
+    fact_labels(ctx, fact_tr(case.get("ftr"), t))
     ctx.nontrivial(True)
 
 
@@ -1071,7 +1183,8 @@ def kinship_case(draw):
             "bv": _table(draw, n, t), "loc": [draw(_num()) for _ in range(t)], "scale": [draw(_pos()) for _ in range(t)],
             "unscale": draw(st.booleans()), "dec": draw(_decision(n)),
             "mkrwt": [[draw(st.sampled_from([1.0, 0.5, 2.0, 3.0])) for _ in range(t)] for _ in range(p)],
-            "afreq": [[draw(st.sampled_from([0.5, 0.0, 1.0, 0.25])) for _ in range(t)] for _ in range(p)]}
+            "afreq": [[draw(st.sampled_from([0.5, 0.0, 1.0, 0.25])) for _ in range(t)] for _ in range(p)],
+            "ftr": draw(_fact_transforms())}
 
 
 JITTER_MAX = 0.5e-6      # apply_jitter adds U(1e-10, 1e-6) to the coancestry diagonal; kinship = coancestry / 2
@@ -1137,11 +1250,12 @@ def check_fact_kinship(case, ctx):
                 if enc not in xs:
                     continue
                 sp = space_kwargs(enc, n, len(members))
+                tr, rec = fact_tr(case.get("ftr"), 1 + t if crit == "OCS" else 1), Recorder()
                 try:
                     if crit == "OCS":
-                        prob = cls.from_bvmat_gmat(bvmat=bv, gmat=gmat, cmatfcty=fcty, unscale=case["unscale"], nobj=1 + t, **sp)
+                        prob = cls.from_bvmat_gmat(bvmat=bv, gmat=gmat, cmatfcty=fcty, unscale=case["unscale"], **common_kwargs(tr, rec), **sp)
                     else:
-                        prob = cls.from_gmat(gmat=gmat, cmatfcty=fcty, nobj=1, **sp)
+                        prob = cls.from_gmat(gmat=gmat, cmatfcty=fcty, **common_kwargs(tr, rec), **sp)
                 except ValueError as e:
                     # documented: kinship matrix not positive definite even after jitter
                     ctx.check("positive definite" in str(e), crit + ".factory.unexpected_ValueError", str(e))
@@ -1150,6 +1264,7 @@ def check_fact_kinship(case, ctx):
                 except numpy.linalg.LinAlgError:
                     ctx.label("cholesky_failed_after_eigenvalue_test")
                     continue
+                factory_eval(ctx, crit, enc, "from_bvmat_gmat" if crit == "OCS" else "from_gmat", prob, rec, tr, xs[enc])
                 jit = check_factor(ctx, crit, prob.C, Kref, n)
                 ctx.label("jitter_applied", jit)
                 ctx.label("no_jitter", not jit)
@@ -1197,8 +1312,9 @@ def check_fact_kinship(case, ctx):
                     Kt.append([[sum(Z[a][j] * Fr(case["mkrwt"][j][k]) * Z[b][j] for j in range(p)) / 2 for b in range(n)] for a in range(n)])
             else:
                 Kt = [Kref for _ in range(t)]
+            tr, rec = fact_tr(case.get("ftr"), t), Recorder()
             try:
-                prob = cls.from_gmat(gmat=gmat, cmatfcty=fcty, mkrwt=_np(case["mkrwt"]), afreq=_np(case["afreq"]), nobj=t, **sp)
+                prob = cls.from_gmat(gmat=gmat, cmatfcty=fcty, mkrwt=_np(case["mkrwt"]), afreq=_np(case["afreq"]), **common_kwargs(tr, rec), **sp)
             except ValueError as e:
                 ctx.check("positive definite" in str(e), "L2.factory.unexpected_ValueError",
                           "from_gmat with documented (p,t) mkrwt/afreq and %s raised %s" % (type(fcty).__name__, e))
@@ -1209,8 +1325,10 @@ def check_fact_kinship(case, ctx):
                 continue
             Ct = numpy.asarray(prob.C)
             ctx.check(Ct.shape == (t, n, n), "L2.factory.shape", str(Ct.shape))
+            factory_eval(ctx, "L2", enc, "from_gmat", prob, rec, tr, xs[enc])
             for k in range(t):
                 check_factor(ctx, "L2", Ct[k], Kt[k], n)
+    fact_labels(ctx, fact_tr(case.get("ftr"), t))
     ctx.nontrivial(len(set(map(tuple, dosage(pop0)))) > 1)
 
 
@@ -1222,7 +1340,8 @@ def hap_case(draw):
     nblk = draw(st.integers(1, min(4, pop["p"]))) if single else len(pop["runs"])
     k = draw(st.integers(1, pop["n"]))
     return {"pop": pop, "nblk": nblk, "unique": draw(st.booleans()), "dec_taxa": draw(_decision(pop["n"], force_binary=True)),
-            "dec_cross": draw(_decision(15)), "nbest_raw": draw(st.integers(0, 10))}
+            "dec_cross": draw(_decision(15)), "nbest_raw": draw(st.integers(0, 10)),
+            "nparent": draw(st.sampled_from([2, 2, 2, 3])), "ftr": draw(_fact_transforms())}
 
 
 def block_layout(pop, nblk):
@@ -1236,7 +1355,6 @@ def block_layout(pop, nblk):
 
 def check_fact_hap(case, ctx):
     pop0 = case["pop"]
-    t = pop0["t"]
     nblk = case["nblk"]
     bins, amb = block_layout(pop0, nblk)
     if amb:
@@ -1244,55 +1362,215 @@ def check_fact_hap(case, ctx):
         return
     ctx.label("blocks:one_per_chromosome" if len(pop0["runs"]) == nblk and len(pop0["runs"]) > 1 else "blocks:equal_width_single_chromosome")
     ctx.label("nblk=%d" % nblk)
+    nparent = int(case.get("nparent", 2))
+    ctx.label("nparent=%d" % nparent)
     for oname, order in two_orders(pop0):
         pop = arrange(pop0, order)
-        n = pop["n"]
-        pg = make_gmat(pop, True)
-        mod = make_model(pop)
-        H = D.block_values(pop["hap"], pop["u"], bins, nblk)
-        Hf = [[[[float(v) for v in b] for b in tx] for tx in ph] for ph in H]
-        mag = sum(abs(v) for row in pop["u"] for v in row)
-        htol = 8 * (pop["p"] + 4) * EPS * mag + 1e-300
-        # ---- OPV / GenotypeBuilder: subsets of taxa
-        c, members, xs = dec_vectors(case["dec_taxa"], n, ["subset"])
-        x = xs["subset"]
-        for crit in ("OPV", "GB"):
-            cls = CLASSES.get(crit, {}).get("subset")
-            if cls is None:
-                continue
-            sp = space_kwargs("subset", n, len(members))
-            data_eq = {"H": Hf}
-            if crit == "OPV":
-                prob = cls.from_pgmat_gpmod(nhaploblk=nblk, pgmat=pg, gpmod=mod, nobj=t, **sp)
-            else:
-                nbest = 1 + case["nbest_raw"] % len(members)
-                data_eq["nbest"] = nbest
-                prob = cls.from_pgmat_gpmod(pgmat=pg, gpmod=mod, nhaploblk=nblk, nbestfndr=nbest, nobj=t, **sp)
-                ctx.check(int(prob.nbestfndr) == nbest, "GB.factory.nbestfndr")
-            got = numpy.asarray(prob.haplomat)
-            ok = got.shape == (2, n, nblk, t) and bool(numpy.all(numpy.abs(got - numpy.array(Hf)) <= htol))
-            ctx.check(ok, crit + ".factory.from_pgmat_gpmod.data",
-                      lambda: "%s order: haplomat %s, block values of the population %s (bins %s)" % (oname, got.tolist(), Hf, bins))
-            factory_latent(ctx, crit, "subset", prob, data_eq, c, members, x, [2 * nblk * htol * 2] * t)
-        # ---- OHV: cross configurations
-        xmap = D.cross_map(n, 2, case["unique"])
-        if not xmap:
-            continue
-        table = [[float(v) for v in D.ohv_of_cross(H, par)] for par in xmap]
-        ttol = 2 * nblk * htol * 2
-        for enc, cls in sorted(CLASSES.get("OHV", {}).items()):
-            cc, mem, xs2 = dec_vectors(case["dec_cross"], len(xmap), [enc])
-            if enc not in xs2:
-                continue
-            prob = cls.from_pgmat_gpmod(nparent=2, nhaploblk=nblk, unique_parents=case["unique"], pgmat=pg, gpmod=mod, nobj=t,
-                                        **space_kwargs(enc, len(xmap), len(mem)))
-            ctx.check(numpy.array_equal(prob.decn_space_xmap, numpy.array(xmap)), "OHV.factory.cross_map",
-                      lambda: "xmap %s, expected %s" % (prob.decn_space_xmap.tolist(), xmap))
-            ctx.check(_arr_close(prob.ohvmat, table, ttol), "OHV.factory.from_pgmat_gpmod.data",
-                      lambda: "%s %s order: ohvmat %s, ploidy * sum_b max over phases and parents = %s (xmap %s)" % (enc, oname, prob.ohvmat.tolist(), table, xmap))
-            factory_latent(ctx, "OHV", enc, prob, {"v": table}, cc, mem, xs2[enc], [ttol] * t)
+        nd = len(D.cross_map(pop["n"], nparent, case["unique"]))
+        hap_checks(ctx, pop, oname, nblk, bins, nparent, case["unique"], case["dec_taxa"],
+                   small_cross_decision(case["dec_cross"], nd), case["nbest_raw"], case.get("ftr"))
         ctx.label("self_crosses_allowed", not case["unique"])
+    fact_labels(ctx, fact_tr(case.get("ftr"), pop0["t"]))
     ctx.nontrivial(nblk > 1 or len(pop0["runs"]) > 1)
+
+
+def small_cross_decision(dec, nd):
+    """a drawn decision (counts for up to 15 crosses) laid over a cross map with `nd` entries: the counts are spread
+    cyclically from a drawn offset, so that maps longer than the drawn vector are reached over their whole length"""
+    if nd <= len(dec["cnt"]):
+        return dec
+    q = dict(dec)
+    cnt = [0] * nd
+    stride = max(1, nd // len(dec["cnt"]))
+    for i, v in enumerate(dec["cnt"]):
+        cnt[(dec["perm"] + i * stride) % nd] = v
+    q["cnt"] = cnt
+    return q
+
+
+def _rows_differ(got, table, tol):
+    got = numpy.asarray(got, dtype=float)
+    ref = numpy.array(table, dtype=float)
+    if got.shape != ref.shape:
+        return "shape %s, expected %s" % (got.shape, ref.shape)
+    with numpy.errstate(invalid="ignore"):
+        bad = numpy.flatnonzero(~(numpy.abs(got - ref) <= tol).all(axis=1))
+    return "%d of %d rows differ; first rows %s: held %s, population %s" % (
+        len(bad), len(ref), bad[:6].tolist(), got[bad[:3]].tolist(), ref[bad[:3]].tolist())
+
+
+def hap_checks(ctx, pop, oname, nblk, bins, nparent, unique, dec_taxa, dec_cross, nbest_raw, ftr):
+    """factory clauses of the haplotype-block criteria for one stored taxon order of one population"""
+    n, t = pop["n"], pop["t"]
+    pg = make_gmat(pop, True)
+    mod = make_model(pop)
+    H = D.block_values(pop["hap"], pop["u"], bins, nblk)
+    Hf = [[[[float(v) for v in b] for b in tx] for tx in ph] for ph in H]
+    mag = sum(abs(v) for row in pop["u"] for v in row)
+    htol = 8 * (pop["p"] + 4) * EPS * mag + 1e-300
+    tr = fact_tr(ftr, t)
+    # ---- OPV / GenotypeBuilder: subsets of taxa
+    c, members, xs = dec_vectors(dec_taxa, n, ["subset"])
+    x = xs["subset"]
+    for crit in ("OPV", "GB"):
+        cls = CLASSES.get(crit, {}).get("subset")
+        if cls is None:
+            continue
+        sp = space_kwargs("subset", n, len(members))
+        data_eq = {"H": Hf}
+        rec = Recorder()
+        if crit == "OPV":
+            prob = cls.from_pgmat_gpmod(nhaploblk=nblk, pgmat=pg, gpmod=mod, **common_kwargs(tr, rec), **sp)
+        else:
+            nbest = 1 + nbest_raw % len(members)
+            data_eq["nbest"] = nbest
+            prob = cls.from_pgmat_gpmod(pgmat=pg, gpmod=mod, nhaploblk=nblk, nbestfndr=nbest, **common_kwargs(tr, rec), **sp)
+            ctx.check(int(prob.nbestfndr) == nbest, "GB.factory.nbestfndr")
+        got = numpy.asarray(prob.haplomat)
+        ok = got.shape == (2, n, nblk, t) and bool(numpy.all(numpy.abs(got - numpy.array(Hf)) <= htol))
+        ctx.check(ok, crit + ".factory.from_pgmat_gpmod.data",
+                  lambda: "%s order: haplomat %s, block values of the population %s (bins %s)" % (
+                      oname, got.tolist() if n <= 10 else "(%d taxa)" % n, Hf if n <= 10 else "...", bins))
+        factory_eval(ctx, crit, "subset", "from_pgmat_gpmod", prob, rec, tr, x)
+        factory_latent(ctx, crit, "subset", prob, data_eq, c, members, x, [2 * nblk * htol * 2] * t)
+    # ---- OHV: cross configurations
+    xmap = D.cross_map(n, nparent, unique)
+    if not xmap:
+        return
+    table = [[float(v) for v in D.ohv_of_cross(H, par)] for par in xmap]
+    ttol = 2 * nblk * htol * 2
+    for enc, cls in sorted(CLASSES.get("OHV", {}).items()):
+        cc, mem, xs2 = dec_vectors(dec_cross, len(xmap), [enc])
+        if enc not in xs2:
+            continue
+        rec = Recorder()
+        prob = cls.from_pgmat_gpmod(nparent=nparent, nhaploblk=nblk, unique_parents=unique, pgmat=pg, gpmod=mod,
+                                    **common_kwargs(tr, rec), **space_kwargs(enc, len(xmap), len(mem)))
+        ctx.check(numpy.array_equal(prob.decn_space_xmap, numpy.array(xmap)), "OHV.factory.cross_map",
+                  lambda: "xmap %s..., expected %s..." % (prob.decn_space_xmap[:20].tolist(), xmap[:20]))
+        ctx.check(_arr_close(prob.ohvmat, table, ttol), "OHV.factory.from_pgmat_gpmod.data",
+                  lambda: "%s %s order, %d taxa, %d-parent crosses (unique=%s): ohvmat vs ploidy * sum_b max over phases and parents: %s" % (
+                      enc, oname, n, nparent, unique, _rows_differ(prob.ohvmat, table, ttol)))
+        factory_eval(ctx, "OHV", enc, "from_pgmat_gpmod", prob, rec, tr, xs2[enc])
+        factory_latent(ctx, "OHV", enc, prob, {"v": table}, cc, mem, xs2[enc], [ttol] * t)
+
+
+# ---- sizes across the memory-chunk boundary of the factories -----------------------------------------------------------
+# The factories compute their tables in chunks whose size the caller cannot choose (1024 cross configurations in the OHV
+# factories; 1024 markers of a linkage group in the variance matrix the UC factories use).  The property is quantified
+# over all candidate populations, so a few fixed sizes just below / across / several times across the boundary are run,
+# with and without self crosses, with two-, three- and four-parent crosses.  The population itself is made from the
+# seed in the case (numpy default_rng), in the same layout and with the same kinds of loci as `population()`.
+def seeded_population(seed, n, p, t, nchr, inbred=False):
+    rng = numpy.random.default_rng(int(seed))
+    hap = rng.integers(0, 2, size=(2, n, p))
+    kinds = rng.choice(["free", "free", "free", "all0", "all1", "hom"], size=p)
+    for j in range(p):
+        if kinds[j] == "all0":
+            hap[:, :, j] = 0
+        elif kinds[j] == "all1":
+            hap[:, :, j] = 1
+        elif kinds[j] == "hom" or inbred:
+            hap[1, :, j] = hap[0, :, j]
+    names = [int(v) for v in rng.permutation(n)]
+    if n > 1 and names == sorted(names):
+        names[0], names[-1] = names[-1], names[0]
+    nchr = max(1, min(nchr, p))
+    cuts = sorted(int(v) for v in rng.choice(numpy.arange(1, p), size=nchr - 1, replace=False)) if nchr > 1 else []
+    runs = [b - a for a, b in zip([0] + cuts, cuts + [p])]
+    return {"n": n, "p": p, "t": t, "hap": [[[int(v) for v in row] for row in ph] for ph in hap],
+            "names": names, "grp": [int(v) for v in rng.choice([4, 2, 9], size=n)], "runs": runs,
+            "gaps": [float(v) for v in rng.choice([0.01, 0.05, 0.1, 0.2, 0.35, 0.5, 1.0], size=p)],
+            "u": [[float(v) for v in row] for row in rng.choice([1.0, -1.0, 0.5, -2.0, 3.0, 0.25, -0.75, 0.0], size=(p, t))],
+            "beta": [float(v) for v in rng.choice([0.0, 10.0, -3.5, 100.0], size=t)],
+            "perm": int(rng.integers(0, 10 ** 6))}
+
+
+# (taxa, parents per cross, unique parents) -> number of cross configurations
+HAP_LARGE_QUICK = [(46, 2, True),      # 1035 = 1024 + 11
+                   (45, 2, False),     # 1035
+                   (20, 3, True),      # 1140
+                   (65, 2, True),      # 2080 = 2 * 1024 + 32
+                   (45, 2, True),      # 990: just below one chunk
+                   (18, 3, False),     # 1140
+                   (64, 2, False),     # 2080
+                   (12, 4, False)]     # 1365
+HAP_LARGE_THOROUGH = HAP_LARGE_QUICK + [(47, 2, True),     # 1081
+                                        (14, 4, True),     # 1001
+                                        (91, 2, True),     # 4095 = 4 * 1024 - 1
+                                        (24, 3, True),     # 2024
+                                        (33, 3, True),     # 5456
+                                        (100, 2, False)]   # 5050
+
+
+def _large_seed():
+    return int(os.environ.get("VERIF_SEED", "1"))
+
+
+def hap_large_cases(tier):
+    base = _large_seed()
+    out = []
+    for i, (n, npar, uniq) in enumerate(HAP_LARGE_THOROUGH if tier == "thorough" else HAP_LARGE_QUICK):
+        rng = numpy.random.default_rng([base, i, 505])
+        nchr = int(rng.integers(1, 4))
+        out.append({"n": n, "nparent": npar, "unique": uniq, "p": int(rng.integers(max(3, nchr), 13)), "t": int(rng.integers(1, 3)),
+                    "nchr": nchr, "seed": int(rng.integers(0, 2 ** 31 - 1)),
+                    # candidate: crosses counted from the END of the cross map, from its start, and anywhere
+                    "from_end": [int(v) for v in rng.integers(0, 40, size=2)], "from_start": [int(rng.integers(0, 40))],
+                    "anywhere": [int(v) for v in rng.integers(0, 10 ** 6, size=2)],
+                    "counts": [int(v) for v in rng.integers(1, 4, size=5)] if rng.integers(0, 2) else [1] * 5,
+                    "scale": float(rng.choice([1.0, 0.1, 3.0, 0.37])), "perm": int(rng.integers(0, 10 ** 6)),
+                    "taxa": [int(v) for v in rng.integers(0, 10 ** 6, size=4)], "nbest_raw": int(rng.integers(0, 10)),
+                    "ftr_seed": int(rng.integers(0, 2 ** 31 - 1))})
+    return out
+
+
+def seeded_fact_transforms(seed):
+    """one example of `_fact_transforms` determined by the seed in the case"""
+    rng = numpy.random.default_rng(int(seed))
+
+    def pick(seq):
+        return seq[int(rng.integers(0, len(seq)))]
+
+    def affine(role, nout):
+        return {"kind": "affine", "n": nout, "A": [[int(v) for v in rng.integers(-3, 4, size=NLAT_MAX)] for _ in range(nout)],
+                "b": [pick([0.0, 1.0, -2.5, 10.0]) for _ in range(nout)], "d": pick([0.0, 1.0, -0.5]),
+                "kw": {"who": role, "shift": pick([0.5, -1.0, 2.0, 3.0, -4.5, 6.0])}}
+    return {"obj": affine("obj", int(rng.integers(1, 4))), "ineq": affine("ineq", int(rng.integers(1, 3))),
+            "eq": pick([affine("eq", 1), {"kind": "sumeq", "n": 1, "target": 3.0}]),
+            "obj_wt": [pick([1.0, -1.0, 2.0, -3.0, 0.5]) for _ in range(NLAT_MAX)], "ineq_wt": pick([None, 2.0, [1.5, 0.5]]),
+            "eq_wt": pick([None, 4.0, [-1.0, 2.0]])}
+
+
+def large_decision(case, nd):
+    idx = [nd - 1 - (v % nd) for v in case["from_end"]] + [v % nd for v in case["from_start"]] + [v % nd for v in case["anywhere"]]
+    cnt = [0] * nd
+    for i, j in enumerate(idx):
+        cnt[j] = max(cnt[j], int(case["counts"][i]))
+    return {"cnt": cnt, "perm": case["perm"], "scale": case["scale"]}
+
+
+def check_fact_hap_large(case, ctx):
+    n, nparent = case["n"], case["nparent"]
+    pop0 = seeded_population(case["seed"], n, case["p"], case["t"], case["nchr"])
+    nblk = len(pop0["runs"])                     # one block per chromosome
+    bins, amb = block_layout(pop0, nblk)
+    assert not amb
+    nd = len(D.cross_map(n, nparent, case["unique"]))
+    ctx.label("crosses:%d" % nd)
+    ctx.label("across_chunk_boundary", nd > 1024 and nd % 1024 != 0)
+    ctx.label("several_chunks", nd > 2048)
+    ctx.label("nparent=%d" % nparent)
+    ctx.label("self_crosses_allowed", not case["unique"])
+    tcnt = [0] * n
+    for v in case["taxa"]:
+        tcnt[v % n] = 1
+    dec_taxa = {"cnt": tcnt, "perm": case["perm"], "scale": 1.0}
+    ftr = seeded_fact_transforms(case["ftr_seed"])
+    for oname, order in two_orders(pop0):
+        hap_checks(ctx, arrange(pop0, order), oname, nblk, bins, nparent, case["unique"], dec_taxa, large_decision(case, nd),
+                   case["nbest_raw"], ftr)
+    ctx.nontrivial(nd > 1024)
 
 
 # ---- usefulness criterion -----------------------------------------------------------------------------------------
@@ -1301,13 +1579,17 @@ def uc_case(draw):
     pop = draw(population(nmin=2, nmax=4, pmin=1, pmax=6, tmax=2, inbred=True))
     return {"pop": pop, "unique": draw(st.booleans()), "upper": draw(st.sampled_from([0.1, 0.05, 0.2, 0.5, 0.01])),
             "dec_cross": draw(_decision(10)), "via_xmap": draw(st.booleans()), "xperm": draw(st.integers(0, 10 ** 6)),
-            "nprogeny": draw(st.sampled_from([1, 10, 40]))}
+            "nprogeny": draw(st.sampled_from([1, 10, 40])), "ftr": draw(_fact_transforms())}
 
 
 def check_fact_uc(case, ctx):
-    pop0 = case["pop"]
+    uc_checks(ctx, case, case["pop"], D.dh_variance_inbred)
+
+
+def uc_checks(ctx, case, pop0, varfn):
     t, p = pop0["t"], pop0["p"]
     chrom, genpos = pop_meta(pop0)
+    tr = fact_tr(case.get("ftr"), t)
     inten = D.selection_intensity(case["upper"])
     for oname, order in two_orders(pop0):
         pop = arrange(pop0, order)
@@ -1326,7 +1608,7 @@ def check_fact_uc(case, ctx):
             row, trow = [], []
             for k in range(t):
                 uk = [pop["u"][j][k] for j in range(p)]
-                var, vabs = D.dh_variance_inbred(pop["hap"][0][a], pop["hap"][0][b], uk, genpos, chrom)
+                var, vabs = varfn(pop["hap"][0][a], pop["hap"][0][b], uk, genpos, chrom)
                 dv = 16 * (p * p + 4) * EPS * vabs
                 var = max(var, 0.0)
                 sd = math.sqrt(var)
@@ -1341,23 +1623,74 @@ def check_fact_uc(case, ctx):
             cc, mem, xs = dec_vectors(case["dec_cross"], len(xmap), [enc])
             if enc not in xs:
                 continue
+            rec = Recorder()
             args = dict(nparent=2, ncross=1, nprogeny=case["nprogeny"], nself=0, upper_percentile=case["upper"],
                         vmatfcty=DenseTwoWayDHAdditiveGeneticVarianceMatrixFactory(), gmapfn=HaldaneMapFunction(),
-                        unique_parents=case["unique"], pgmat=pg, gpmod=mod, nobj=t, **space_kwargs(enc, len(xmap), len(mem)))
+                        unique_parents=case["unique"], pgmat=pg, gpmod=mod, **common_kwargs(tr, rec), **space_kwargs(enc, len(xmap), len(mem)))
             if case["via_xmap"]:
                 prob = cls.from_pgmat_gpmod_xmap(xmap=numpy.array(xmap, dtype=int), **args)
             else:
                 prob = cls.from_pgmat_gpmod(**args)
+            factory_eval(ctx, "UC", enc, "from_pgmat_gpmod_xmap" if case["via_xmap"] else "from_pgmat_gpmod", prob, rec, tr, xs[enc])
             ctx.check(numpy.array_equal(prob.decn_space_xmap, numpy.array(xmap)), "UC.factory.cross_map",
                       lambda: "xmap %s, expected %s" % (prob.decn_space_xmap.tolist(), xmap))
             ctx.check(_arr_close(prob.ucmat, table, ttol), "UC.factory.data",
-                      lambda: "%s %s order upper=%r: ucmat %s; parental mean + i*sqrt(DH progeny variance) = %s for crosses %s" % (
-                          enc, oname, case["upper"], prob.ucmat.tolist(), table, xmap))
+                      lambda: "%s %s order upper=%r, %d markers: ucmat %s; parental mean + i*sqrt(DH progeny variance) = %s for crosses %s" % (
+                          enc, oname, case["upper"], p, prob.ucmat.tolist(), table, xmap))
             xt = [sum(float(cc[i]) * ttol[i][k] for i in range(len(xmap))) for k in range(t)]
             factory_latent(ctx, "UC", enc, prob, {"v": table}, cc, mem, xs[enc], xt)
         ctx.label("via_xmap" if case["via_xmap"] else "built_xmap")
         ctx.label("linked_loci", any(r > 1 for r in pop0["runs"]))
+    fact_labels(ctx, tr)
     ctx.nontrivial(any(any(pop0["hap"][0][0][j] != pop0["hap"][0][i][j] for j in range(p)) for i in range(pop0["n"])))
+
+
+# ---- usefulness criterion with more markers on a linkage group than one chunk of the variance computation --------------
+def dh_variance_inbred_np(h1, h2, u_t, genpos, chrom):
+    """`D.dh_variance_inbred` (enumeration of the four gamete classes of the F1 for every pair of loci) written with arrays,
+    for marker numbers at which the pure-Python double loop takes minutes; sums by math.fsum as there"""
+    h1, h2, u = _np(h1), _np(h2), _np(u_t)
+    g, ch = _np(genpos), numpy.array(chrom)
+    r = numpy.where(ch[:, None] == ch[None, :], 0.5 * (1.0 - numpy.exp(-2.0 * numpy.abs(g[:, None] - g[None, :]))), 0.5)
+    numpy.fill_diagonal(r, 0.0)
+    classes = [(h1[:, None], h1[None, :], (1 - r) / 2), (h2[:, None], h2[None, :], (1 - r) / 2),
+               (h1[:, None], h2[None, :], r / 2), (h2[:, None], h1[None, :], r / 2)]
+    ej = sum(a * pr for a, _b, pr in classes)
+    ek = sum(b * pr for _a, b, pr in classes)
+    ejk = sum(a * b * pr for a, b, pr in classes)
+    terms = (4.0 * u[:, None] * u[None, :] * (ejk - ej * ek)).ravel()
+    return math.fsum(terms), math.fsum(numpy.abs(terms))
+
+
+# (taxa, markers per chromosome)
+UC_LARGE_QUICK = [(3, [1030]), (2, [1100, 3])]
+UC_LARGE_THOROUGH = UC_LARGE_QUICK + [(3, [1000]), (2, [5, 1025]), (2, [2060]), (4, [1029, 1031])]
+
+
+def uc_large_cases(tier):
+    base = _large_seed()
+    out = []
+    for i, (n, runs) in enumerate(UC_LARGE_THOROUGH if tier == "thorough" else UC_LARGE_QUICK):
+        rng = numpy.random.default_rng([base, i, 506])
+        out.append({"n": n, "runs": runs, "t": int(rng.integers(1, 3)), "seed": int(rng.integers(0, 2 ** 31 - 1)),
+                    "unique": bool(rng.integers(0, 2)), "upper": float(rng.choice([0.1, 0.05, 0.2, 0.5])),
+                    "via_xmap": bool(rng.integers(0, 2)), "xperm": int(rng.integers(0, 10 ** 6)), "nprogeny": int(rng.choice([1, 10, 40])),
+                    "dec_cross": {"cnt": [int(v) for v in rng.integers(0, 3, size=10)], "perm": int(rng.integers(0, 10 ** 6)),
+                                  "scale": float(rng.choice([1.0, 0.1, 3.0]))},
+                    "ftr_seed": int(rng.integers(0, 2 ** 31 - 1))})
+    return out
+
+
+def check_fact_uc_large(case, ctx):
+    runs = [int(v) for v in case["runs"]]
+    pop0 = seeded_population(case["seed"], case["n"], sum(runs), case["t"], 1, inbred=True)
+    pop0["runs"] = runs
+    # dense maps: neighbouring markers 0.001 .. 0.02 Morgan apart, so that linkage matters along the whole chromosome
+    pop0["gaps"] = [g / 50.0 for g in pop0["gaps"]]
+    ctx.label("markers_on_largest_chromosome>1024", max(runs) > 1024)
+    q = dict(case)
+    q["ftr"] = seeded_fact_transforms(case["ftr_seed"])
+    uc_checks(ctx, q, pop0, dh_variance_inbred_np)
 
 
 # ---- expected maximum breeding value ----------------------------------------------------------------------------------
@@ -1366,7 +1699,8 @@ def embv_case(draw):
     inbred = draw(st.sampled_from([True, True, False]))
     pop = draw(population(nmin=2, nmax=4, pmin=1, pmax=5, tmax=2, inbred=inbred))
     return {"pop": pop, "inbred": inbred, "unique": draw(st.booleans()), "nrep": draw(st.integers(1, 3)),
-            "nprogeny": draw(st.integers(1, 4)), "seed": draw(st.integers(0, 2 ** 31 - 1)), "dec_cross": draw(_decision(10))}
+            "nprogeny": draw(st.integers(1, 4)), "seed": draw(st.integers(0, 2 ** 31 - 1)), "dec_cross": draw(_decision(10)),
+            "ftr": draw(_fact_transforms())}
 
 
 def embv_signature(ncross, nrep):
@@ -1411,11 +1745,13 @@ def check_fact_embv(case, ctx):
         if enc not in xs:
             continue
         probs = []
+        tr, rec = fact_tr(case.get("ftr"), t), Recorder()
         for rep in range(2):
             mp = TwoWayCross(rng=numpy.random.RandomState(case["seed"]))
             probs.append(cls.from_pgmat_gpmod(nparent=2, nmating=1, nprogeny=case["nprogeny"], nrep=case["nrep"], unique_parents=case["unique"],
-                                              pgmat=pg, gpmod=mod, mateprot=mp, nobj=t, **space_kwargs(enc, ncross, len(mem))))
+                                              pgmat=pg, gpmod=mod, mateprot=mp, **common_kwargs(tr, rec), **space_kwargs(enc, ncross, len(mem))))
         prob = probs[0]
+        factory_eval(ctx, "EMBV", enc, "from_pgmat_gpmod", prob, rec, tr, xs[enc])
         E = numpy.asarray(prob.embv)
         ctx.check(E.shape == (ncross, t), "EMBV.factory.shape", str(E.shape))
         ctx.check(numpy.array_equal(E, probs[1].embv, equal_nan=True), "EMBV.factory.seed_reproducible",
@@ -1430,6 +1766,7 @@ def check_fact_embv(case, ctx):
                     ctx.check(abs(v - exact[i][k]) <= tol, "EMBV.factory.exact_for_fixed_progeny",
                               lambda: "cross %s of lines whose progeny are all identical: EMBV %r, progeny GEBV %r" % (xmap[i], v, exact[i][k]))
         factory_latent(ctx, "EMBV", enc, prob, {"v": E.tolist()}, cc, mem, xs[enc])
+    fact_labels(ctx, fact_tr(case.get("ftr"), t))
     ctx.nontrivial(ncross > 1)
 
 
@@ -1437,7 +1774,8 @@ def check_fact_embv(case, ctx):
 @st.composite
 def random_case(draw):
     n = draw(st.integers(2, 8))
-    return {"n": n, "t": draw(st.integers(1, 3)), "seed": draw(st.integers(0, 2 ** 31 - 1)), "dec": draw(_decision(n))}
+    return {"n": n, "t": draw(st.integers(1, 3)), "seed": draw(st.integers(0, 2 ** 31 - 1)), "dec": draw(_decision(n)),
+            "ftr": draw(_fact_transforms())}
 
 
 def check_fact_random(case, ctx):
@@ -1448,10 +1786,12 @@ def check_fact_random(case, ctx):
         if enc not in xs:
             continue
         sp = space_kwargs(enc, n, len(members))
+        tr, rec = fact_tr(case.get("ftr"), t), Recorder()
         numpy.random.seed(case["seed"])
-        p1 = cls.from_object(ntaxa=n, ntrait=t, nobj=t, **sp)
+        p1 = cls.from_object(ntaxa=n, ntrait=t, **common_kwargs(tr, rec), **sp)
         numpy.random.seed(case["seed"])
-        p2 = cls.from_object(ntaxa=n, ntrait=t, nobj=t, **sp)
+        p2 = cls.from_object(ntaxa=n, ntrait=t, **common_kwargs(tr, rec), **sp)
+        factory_eval(ctx, "Random", enc, "from_object", p1, rec, tr, xs[enc])
         R = numpy.asarray(p1.rbv)
         ctx.check(R.shape == (n, t) and bool(numpy.all(numpy.isfinite(R))), "Random.factory.shape", str(R.shape))
         ctx.check(numpy.array_equal(R, p2.rbv), "Random.factory.seed_reproducible")
@@ -1460,6 +1800,7 @@ def check_fact_random(case, ctx):
     for R in tables[1:]:
         ctx.check(numpy.array_equal(R, tables[0]), "Random.factory.encodings_draw_same_values",
                   "same seed, different random breeding values across encodings")
+    fact_labels(ctx, fact_tr(case.get("ftr"), t))
     ctx.nontrivial(True)
 
 
@@ -1542,6 +1883,12 @@ RULE_CTOR = ("generated data + decision vector (0/1 or 0..3 counts, >=1 selected
 RULE_FACT = ("generated population (non-sorted taxon names, groups, 1-3 chromosomes, fixed / homozygous / free loci, marker effects with "
              "exact zeros) stored in two different taxon orders; data attributes and latent values of the factory-made problems are "
              "compared with definitions evaluated on the raw population; non-trivial = population not monomorphic")
+RULE_FACT_EVAL = RULE_FACT + ("; every factory is given three distinct recording transformations with their own kwargs and weights, "
+                              "and evalfn of the result is compared with weights x transformations")
+
+RULE_LARGE = ("fixed sizes just below / across / several times across the factories' hard-wired chunk of 1024 (cross configurations; "
+              "markers of a linkage group), population and candidate made from the seed in the case (seed list follows VERIF_SEED); "
+              "same clauses as the small factory sub-check; non-trivial = more than one chunk")
 
 SUBCHECKS = [
     SubCheck("inventory", check_inventory, cases=inventory_cases, rule="one case per concrete class found at run time",
@@ -1553,15 +1900,25 @@ for _crit in ORDER:
                                   thorough=1500, shards_quick=1, shards_thorough=4, rule=RULE_CTOR,
                                   required_labels=("mode:binary",)))
 SUBCHECKS += [
-    SubCheck("fact_bvmat", check_fact_bvmat, bvmat_case(), quick=240, thorough=1500, shards_thorough=4, rule=RULE_FACT),
-    SubCheck("fact_genomic", check_fact_genomic, genomic_case(), quick=200, thorough=1200, shards_quick=2, shards_thorough=8, rule=RULE_FACT,
-             required_labels=("zero_effect_marker", "phased", "unphased")),
-    SubCheck("fact_l1", check_fact_l1, l1_case(), quick=200, thorough=1000, shards_thorough=2, rule=RULE_FACT),
-    SubCheck("fact_kinship", check_fact_kinship, kinship_case(), quick=160, thorough=1000, shards_quick=2, shards_thorough=8, rule=RULE_FACT,
-             required_labels=("cmat:molecular",)),
-    SubCheck("fact_hap", check_fact_hap, hap_case(), quick=200, thorough=1200, shards_quick=2, shards_thorough=8, rule=RULE_FACT),
-    SubCheck("fact_uc", check_fact_uc, uc_case(), quick=120, thorough=800, shards_quick=2, shards_thorough=8, rule=RULE_FACT),
-    SubCheck("fact_embv", check_fact_embv, embv_case(), quick=120, thorough=800, shards_thorough=4, rule=RULE_FACT),
-    SubCheck("fact_random", check_fact_random, random_case(), quick=100, thorough=500, shards_thorough=2, rule=RULE_FACT),
+    SubCheck("fact_bvmat", check_fact_bvmat, bvmat_case(), quick=240, thorough=1500, shards_thorough=4, rule=RULE_FACT_EVAL,
+             required_labels=("fact_distinct_constraint_kwargs",)),
+    SubCheck("fact_genomic", check_fact_genomic, genomic_case(), quick=200, thorough=1200, shards_quick=2, shards_thorough=8, rule=RULE_FACT_EVAL,
+             required_labels=("zero_effect_marker", "phased", "unphased", "fact_distinct_constraint_kwargs")),
+    SubCheck("fact_l1", check_fact_l1, l1_case(), quick=200, thorough=1000, shards_thorough=2, rule=RULE_FACT_EVAL,
+             required_labels=("fact_distinct_constraint_kwargs",)),
+    SubCheck("fact_kinship", check_fact_kinship, kinship_case(), quick=160, thorough=1000, shards_quick=2, shards_thorough=8, rule=RULE_FACT_EVAL,
+             required_labels=("cmat:molecular", "fact_distinct_constraint_kwargs")),
+    SubCheck("fact_hap", check_fact_hap, hap_case(), quick=200, thorough=1200, shards_quick=2, shards_thorough=8, rule=RULE_FACT_EVAL,
+             required_labels=("fact_distinct_constraint_kwargs", "nparent=3")),
+    SubCheck("fact_hap_large", check_fact_hap_large, cases=hap_large_cases, shards_quick=8, shards_thorough=14, rule=RULE_LARGE,
+             required_labels=("across_chunk_boundary",)),
+    SubCheck("fact_uc", check_fact_uc, uc_case(), quick=120, thorough=800, shards_quick=2, shards_thorough=8, rule=RULE_FACT_EVAL,
+             required_labels=("fact_distinct_constraint_kwargs", "via_xmap", "built_xmap")),
+    SubCheck("fact_uc_large", check_fact_uc_large, cases=uc_large_cases, shards_quick=2, shards_thorough=6, rule=RULE_LARGE,
+             required_labels=("markers_on_largest_chromosome>1024",)),
+    SubCheck("fact_embv", check_fact_embv, embv_case(), quick=120, thorough=800, shards_thorough=4, rule=RULE_FACT_EVAL,
+             required_labels=("fact_distinct_constraint_kwargs",)),
+    SubCheck("fact_random", check_fact_random, random_case(), quick=100, thorough=500, shards_thorough=2, rule=RULE_FACT_EVAL,
+             required_labels=("fact_distinct_constraint_kwargs",)),
     SubCheck("fact_bvmats", check_fact_bvmats, bvmats_case(), quick=120, thorough=600, shards_thorough=4, rule=RULE_FACT),
 ]
